@@ -9,11 +9,14 @@ Section NodeInd.
   Variable P : node -> Prop.
   Hypothesis HL : forall r p, P (NLeaf r p).
   Hypothesis HO : forall cid ch, Forall P ch -> P (NObj cid ch).
+  Hypothesis HI : forall items, Forall P items -> P (NList items).
   Fixpoint node_ind' (n: node) : P n :=
     match n with
     | NLeaf r p => HL r p
     | NObj cid ch => HO cid ch ((fix go (l: list node) : Forall P l :=
                                    match l with [] => Forall_nil P | x :: r => Forall_cons x (node_ind' x) (go r) end) ch)
+    | NList items => HI items ((fix go (l: list node) : Forall P l :=
+                                  match l with [] => Forall_nil P | x :: r => Forall_cons x (node_ind' x) (go r) end) items)
     end.
 End NodeInd.
 
@@ -34,6 +37,13 @@ Fixpoint go_ok (f: node -> list nat -> bool) (ch: list node) (fs: list (fplan * 
   | x :: ch', f0 :: fs' => match f0 with (_, mem') => f x mem' && go_ok f ch' fs' end
   | _, _ => false end.
 
+Fixpoint go_items (f: node -> option fval) (l: list node) : option (list pv) :=
+  match l with
+  | [] => Some []
+  | x :: r => match f x, go_items f r with
+              | Some v, Some t => Some (snd v :: t)
+              | _, _ => None end end.
+
 Section Table.
   Variable ct : list cls.
 
@@ -46,12 +56,13 @@ Section Table.
     | Some l => Some (POpq 0, PDict (dict_of l))
     | None => None end.
 
-  Lemma pack_h_obj spec cid ch members outer avail :
-    pack_h ct spec (NObj cid ch) members outer avail =
+  Lemma pack_h_obj spec cid ch members outer avail pd :
+    pack_h ct spec (NObj cid ch) members outer avail pd =
     match nth_error ct cid, (if spec then pick_spec ct else pick_impl ct) outer members cid with
     | Some c, Some fl =>
-        let o := opts_of c (restrict fl avail) in
-        match go_pack (fun x m => pack_h ct spec x m c.(c_flags) (avail_of spec o)) ch c.(c_fields) with
+        let o := opts_of c (restrict fl avail) (dd_of c pd) in
+        match go_pack (fun x m => pack_h ct spec x m c.(c_flags) (avail_of spec o) (pass_dd (dd_of c pd) o.(o_call) c.(c_cfgd)))
+                      ch c.(c_fields) with
         | Some vs => finish spec o (map fst c.(c_fields)) vs
         | None => None end
     | _, _ => None end.
@@ -66,14 +77,27 @@ Section Table.
     rewrite Hg. reflexivity.
   Qed.
 
-  Lemma ok_h_obj cid ch members outer avail :
-    ok_h ct (NObj cid ch) members outer avail =
+  Lemma pack_h_list spec items members outer avail pd :
+    pack_h ct spec (NList items) members outer avail pd =
+    match go_items (fun x => pack_h ct spec x members outer avail pd) items with
+    | Some l => Some (POpq (S (List.length items)), PList l)
+    | None => None end.
+  Proof.
+    cbn [pack_h].
+    match goal with |- match ?g1 with _ => _ end = match ?g2 with _ => _ end => assert (Hg: g1 = g2) end.
+    { induction items as [|x r IH]; cbn; [reflexivity | rewrite IH; reflexivity]. }
+    rewrite Hg. reflexivity.
+  Qed.
+
+  Lemma ok_h_obj cid ch members outer avail pd :
+    ok_h ct (NObj cid ch) members outer avail pd =
     match nth_error ct cid, pick_spec ct outer members cid, pick_impl ct outer members cid with
     | Some c, Some fl, Some fl' =>
-        let o := opts_of c (restrict fl avail) in
+        let o := opts_of c (restrict fl avail) (dd_of c pd) in
+        let pd' := pass_dd (dd_of c pd) o.(o_call) c.(c_cfgd) in
         flags_eqb fl fl' && kw_ok o && flag_defaults_ok o &&
-        go_ok (fun x m => ok_h ct x m c.(c_flags) (avail_of true o)) ch c.(c_fields) &&
-        match go_pack (fun x m => pack_h ct true x m c.(c_flags) (avail_of true o)) ch c.(c_fields) with
+        go_ok (fun x m => ok_h ct x m c.(c_flags) (avail_of true o) pd') ch c.(c_fields) &&
+        match go_pack (fun x m => pack_h ct true x m c.(c_flags) (avail_of true o) pd') ch c.(c_fields) with
         | Some vs => vals_ok (map fst c.(c_fields)) vs
         | None => false end
     | _, _, _ => false end.
@@ -90,6 +114,10 @@ Section Table.
         rewrite IH. reflexivity. }
       rewrite Hg. reflexivity.
   Qed.
+
+  Lemma ok_h_list items members outer avail pd :
+    ok_h ct (NList items) members outer avail pd = forallb (fun x => ok_h ct x members outer avail pd) items.
+  Proof. cbn [ok_h]. induction items as [|x r IH]; cbn; [reflexivity | rewrite IH; reflexivity]. Qed.
 
   (* ---- flags ---- *)
   Lemma flags_eqb_eq a b : flags_eqb a b = true -> a = b.
@@ -108,9 +136,9 @@ Section Table.
     destruct o1, o2, o3, x1, x2, x3; reflexivity.
   Qed.
 
-  Lemma avail_restrict c k :
-    kw_ok (opts_of c k) = true -> flag_defaults_ok (opts_of c k) = true ->
-    restrict (c_flags c) (avail_of false (opts_of c k)) = restrict (c_flags c) (avail_of true (opts_of c k)).
+  Lemma avail_restrict c k dd :
+    kw_ok (opts_of c k dd) = true -> flag_defaults_ok (opts_of c k dd) = true ->
+    restrict (c_flags c) (avail_of false (opts_of c k dd)) = restrict (c_flags c) (avail_of true (opts_of c k dd)).
   Proof.
     intros Hkw Hd14. pose proof (coherent_of _ Hkw Hd14) as (_ & Hcon & Hcba).
     unfold avail_of, restrict. cbn [kw_on kw_ba kw_dl].
@@ -121,12 +149,12 @@ Section Table.
   Qed.
 
   (* ---- the hereditary theorem ---- *)
-  Theorem nested_project : forall (n: node) (members: list nat) (outer: flags) (a1 a2: kwv),
+  Theorem nested_project : forall (n: node) (members: list nat) (outer: flags) (a1 a2: kwv) (pd: option ns),
     restrict outer a1 = restrict outer a2 ->
-    ok_h ct n members outer a2 = true ->
-    pack_h ct false n members outer a1 = pack_h ct true n members outer a2.
+    ok_h ct n members outer a2 pd = true ->
+    pack_h ct false n members outer a1 pd = pack_h ct true n members outer a2 pd.
   Proof.
-    induction n as [raw packed | cid ch IH] using node_ind'; intros members outer a1 a2 Ha Hok.
+    induction n as [raw packed | cid ch IH | items IH] using node_ind'; intros members outer a1 a2 pd Ha Hok.
     - reflexivity.
     - rewrite !pack_h_obj. rewrite ok_h_obj in Hok.
       destruct (nth_error ct cid) as [c|]; [|discriminate].
@@ -140,18 +168,27 @@ Section Table.
       apply flags_eqb_eq in Hfl. subst fl'.
       assert (Hr: restrict fl a1 = restrict fl a2).
       { rewrite (pick_spec_some _ _ _ _ Es). rewrite (restrict_both outer _ a1), (restrict_both outer _ a2). now rewrite Ha. }
-      cbv zeta. rewrite Hr. set (o := opts_of c (restrict fl a2)) in *.
-      pose proof (avail_restrict c _ Hkw Hd14) as Hav. fold o in Hav.
-      assert (Hgo: go_pack (fun x m => pack_h ct false x m (c_flags c) (avail_of false o)) ch (c_fields c)
-                   = go_pack (fun x m => pack_h ct true x m (c_flags c) (avail_of true o)) ch (c_fields c)).
+      cbv zeta. rewrite Hr. set (o := opts_of c (restrict fl a2) (dd_of c pd)) in *.
+      pose proof (avail_restrict c _ _ Hkw Hd14) as Hav. fold o in Hav.
+      set (pd' := pass_dd (dd_of c pd) (o_call o) (c_cfgd c)) in *.
+      assert (Hgo: go_pack (fun x m => pack_h ct false x m (c_flags c) (avail_of false o) pd') ch (c_fields c)
+                   = go_pack (fun x m => pack_h ct true x m (c_flags c) (avail_of true o) pd') ch (c_fields c)).
       { clear Hvals. revert Hch. generalize (c_fields c).
         induction ch as [|x ch IHch]; intros [|[p m] fs] Hch; cbn in *; try reflexivity; try discriminate.
         apply andb_true_iff in Hch. destruct Hch as [Hx Hrest].
         inversion IH as [|? ? IHx IHr]; subst.
-        rewrite (IHx m (c_flags c) _ _ Hav Hx). rewrite (IHch IHr fs Hrest). reflexivity. }
+        rewrite (IHx m (c_flags c) _ _ pd' Hav Hx). rewrite (IHch IHr fs Hrest). reflexivity. }
       rewrite Hgo.
       destruct (go_pack _ ch (c_fields c)) as [vs|]; [|discriminate].
       unfold finish. rewrite (project_partial o _ vs Hkw Hvals Hd14). reflexivity.
+    - rewrite !pack_h_list. rewrite ok_h_list in Hok.
+      assert (Hgo: go_items (fun x => pack_h ct false x members outer a1 pd) items
+                   = go_items (fun x => pack_h ct true x members outer a2 pd) items).
+      { induction items as [|x r IHr]; cbn in *; [reflexivity|].
+        apply andb_true_iff in Hok. destruct Hok as [Hx Hrest].
+        inversion IH as [|? ? IHx IHrest]; subst.
+        rewrite (IHx members outer a1 a2 pd Ha Hx), (IHr IHrest Hrest). reflexivity. }
+      rewrite Hgo. reflexivity.
   Qed.
 
   (* no leak: a nested class that enabled none of the keyword flags receives no keyword
@@ -161,11 +198,11 @@ Section Table.
   Lemma restrict_no_flags outer a : restrict (both outer no_flags) a = no_kw.
   Proof. destruct outer as [o1 o2 o3 o4]. unfold restrict, both, no_flags. cbn. now rewrite !andb_false_r. Qed.
 
-  Theorem no_leak : forall spec cid ch outer outer' a a',
+  Theorem no_leak : forall spec cid ch outer outer' a a' pd,
     flags_c ct cid = no_flags ->
-    pack_h ct spec (NObj cid ch) [cid] outer a = pack_h ct spec (NObj cid ch) [cid] outer' a'.
+    pack_h ct spec (NObj cid ch) [cid] outer a pd = pack_h ct spec (NObj cid ch) [cid] outer' a' pd.
   Proof.
-    intros spec cid ch outer outer' a a' Hf. rewrite !pack_h_obj.
+    intros spec cid ch outer outer' a a' pd Hf. rewrite !pack_h_obj.
     destruct (nth_error ct cid) as [c|] eqn:Ec; [|reflexivity].
     assert (Hp: forall out, (if spec then pick_spec ct else pick_impl ct) out [cid] cid = Some (both out no_flags)).
     { intros out. destruct spec.
@@ -173,6 +210,66 @@ Section Table.
       - cbn. rewrite Hf. destruct out as [o1 o2 o3 o4]. unfold both, no_flags, subflags. cbn.
         now rewrite !andb_false_r. }
     rewrite !Hp. cbv zeta. rewrite !restrict_no_flags. reflexivity.
+  Qed.
+
+  (* what is passed down is the compiling builder's default dialect, never its Config.dialect or
+     call dialect; from a mixin root (no default dialect) every class therefore runs with o_dd = None:
+     the result does not depend on WHICH outer class compiled a plain nested class first *)
+  Lemma pass_dd_none d cd : pass_dd None d cd = None.
+  Proof. reflexivity. Qed.
+
+  Lemma dd_of_none c : dd_of c None = None.
+  Proof. unfold dd_of. destruct (c_mixin c); reflexivity. Qed.
+
+  (* a nested class without keyword flags under a mixin root: its part of the output is a function
+     of its own class and instance only -- independent of the outer classes' Config, Config.dialect,
+     call dialect, flags and run-time values *)
+  Theorem no_leak_root : forall spec cid ch outer outer' a a',
+    flags_c ct cid = no_flags ->
+    pack_h ct spec (NObj cid ch) [cid] outer a None = pack_h ct spec (NObj cid ch) [cid] outer' a' None.
+  Proof. intros. now apply no_leak. Qed.
+
+  (* a nested class that set nothing (typically a plain dataclass without Config): under a mixin root
+     its part of the output IS its own plain serialization, whatever the owners are *)
+  Definition option_free (c: cls) : Prop :=
+    c.(c_cfgd) = None /\ c.(c_cfg) = ns_unset /\ c.(c_sort) = false /\ c.(c_flags) = no_flags.
+  Definition leaf (v: fval) : node := NLeaf (fst v) (snd v).
+
+  Lemma go_pack_leaves f (vs: list fval) (fields: list (fplan * list nat)) :
+    (forall v m, f (leaf v) m = Some v) -> List.length vs = List.length fields ->
+    go_pack f (map leaf vs) fields = Some vs.
+  Proof.
+    intros Hf. revert fields. induction vs as [|v vs IH]; intros [|[p m] fields] Hl; cbn in *; try discriminate; [reflexivity|].
+    rewrite Hf, IH by lia. reflexivity.
+  Qed.
+
+  Lemma clear_omit_id fs : forallb (fun p => negb p.(p_omit)) fs = true -> map clear_omit fs = fs.
+  Proof.
+    induction fs as [|p fs IH]; cbn; [reflexivity|]. intros H. apply andb_true_iff in H. destruct H as [Hp Hr].
+    rewrite IH by exact Hr. f_equal. destruct p as [n a t tr d om]. cbn in *. apply negb_true_iff in Hp. now subst.
+  Qed.
+
+  Theorem option_free_is_plain : forall cid c vs outer a,
+    nth_error ct cid = Some c -> option_free c ->
+    List.length vs = List.length c.(c_fields) ->
+    forallb (fun p => negb p.(p_omit)) (map fst c.(c_fields)) = true ->
+    pack_h ct false (NObj cid (map leaf vs)) [cid] outer a None
+    = Some (POpq 0, PDict (dict_of (plain_out (map fst c.(c_fields)) vs))).
+  Proof.
+    intros cid c vs outer a Hc (Hcd & Hcf & Hs & Hfl) Hlen Hom.
+    rewrite pack_h_obj, Hc.
+    assert (Hfc: flags_c ct cid = no_flags) by (unfold flags_c; now rewrite Hc).
+    cbn [pick_impl]. rewrite Hfc.
+    assert (Hsub: subflags (both outer no_flags) no_flags = true).
+    { destruct outer as [o1 o2 o3 o4]. unfold both, no_flags, subflags. cbn. now rewrite !andb_false_r. }
+    rewrite Hsub. cbv zeta. rewrite restrict_no_flags, dd_of_none.
+    assert (Ho: opts_of c no_kw None = plain_opts).
+    { unfold opts_of, plain_opts. rewrite Hcd, Hcf, Hs, Hfl. reflexivity. }
+    rewrite Ho. rewrite go_pack_leaves; [|intros v m; destruct v; reflexivity | exact Hlen].
+    unfold finish, plain_out. rewrite (clear_omit_id _ Hom).
+    destruct (to_dict_model plain_opts (map fst (c_fields c)) vs) eqn:E.
+    - reflexivity.
+    - rewrite <- (clear_omit_id _ Hom) in E. rewrite plain_model_eq in E. discriminate.
   Qed.
 
   (* exactly the flags enabled on both sides reach a directly nested class *)
@@ -189,10 +286,10 @@ Definition fl_none : flags := {| g_on := false; g_ba := false; g_dl := false; g_
 Definition fld (n: string) : fplan :=
   {| p_name := n; p_alias := None; p_tynull := true; p_trivial := true; p_default := DVal PNone; p_omit := false |}.
 Definition d8b_ct : list cls :=
-  [ {| c_cfgd := None; c_cfg := ns_unset; c_sort := false; c_flags := fl_on;      (* 0: Outer(u: Union[A, B]) *)
+  [ {| c_mixin := true; c_cfgd := None; c_cfg := ns_unset; c_sort := false; c_flags := fl_on;      (* 0: Outer(u: Union[A, B]) *)
        c_fields := [({| p_name := "u"; p_alias := None; p_tynull := false; p_trivial := false; p_default := DNo; p_omit := false |}, [1; 2])] |};
-    {| c_cfgd := None; c_cfg := ns_unset; c_sort := false; c_flags := fl_none; c_fields := [(fld "a", [])] |};   (* 1: A *)
-    {| c_cfgd := None; c_cfg := ns_unset; c_sort := false; c_flags := fl_on; c_fields := [(fld "b", [])] |} ]%nat.  (* 2: B *)
+    {| c_mixin := true; c_cfgd := None; c_cfg := ns_unset; c_sort := false; c_flags := fl_none; c_fields := [(fld "a", [])] |};   (* 1: A *)
+    {| c_mixin := true; c_cfgd := None; c_cfg := ns_unset; c_sort := false; c_flags := fl_on; c_fields := [(fld "b", [])] |} ]%nat.  (* 2: B *)
 Definition d8b_inst : node := NObj 0 [NObj 2 [NLeaf PNone PNone]].
 Definition d8b_kw : kwv := {| kw_on := Some true; kw_ba := None; kw_dl := None |}.
 
@@ -212,7 +309,7 @@ Proof.
 Qed.
 
 Theorem nested_partial : forall ct n cid k,
-  ok_h ct n [cid] root_flags k = true -> to_dict_h ct false n cid k = to_dict_h ct true n cid k.
+  ok_h ct n [cid] root_flags k None = true -> to_dict_h ct false n cid k = to_dict_h ct true n cid k.
 Proof.
-  intros ct n cid k Hok. unfold to_dict_h. now rewrite (nested_project ct n [cid] root_flags k k eq_refl Hok).
+  intros ct n cid k Hok. unfold to_dict_h. now rewrite (nested_project ct n [cid] root_flags k k None eq_refl Hok).
 Qed.
